@@ -269,6 +269,17 @@ def normalizeStringForPostscript(s, allowSpaces=True):
             c = unicodedata.normalize("NFKD", c)
             if not set(c) < _postscriptFontNameAllowed:
                 c = c.encode("ascii", errors="replace").decode()
+            # the decomposition can itself yield spaces, control characters or
+            # characters from the exception list (e.g. U+00A0, U+FF08): drop them
+            c = "".join(
+                x
+                for x in c
+                if (
+                    x in _postscriptFontNameAllowed
+                    and x not in _postscriptFontNameExceptions
+                )
+                or (x == " " and allowSpaces)
+            )
         normalized.append(c)
     return "".join(normalized)
 
